@@ -35,6 +35,7 @@ EXTRA = {
             ('TraceBtpe', 'TraceBtpe.cfg', 'h2pe.ndjson', {}, {'h2pe1': ['T', 'out'], 'h2pet': ['lo', 'hi']}),
             ('TraceBtpe', 'TraceBtpe.cfg', 'pd.ndjson', {}, {'pd': ['T', 'k'], 'pdh': ['ap', 'am']}),
             ('TraceBtpe', 'TraceBtpe.cfg', 'rej64.ndjson', {}, {'rej64': ['T', 'x']}),
+            ('TraceBtpe', 'TraceBtpe.cfg', 'geo.ndjson', {}, {'geot': ['T', 'out_ok'], 'geok': ['k'], 'geopi': ['T'], 'geom': ['T', 'out_ok']}),
             ('TraceRejection', 'TraceRejection.cfg', 'knuth.ndjson', {}, {'knuth32': ['oneword', 'P'], 'knuth64': ['p0', 'witness']})],
     'C06': [('TraceZigAcc', 'TraceZigAcc.cfg', 'zigacc.ndjson', {}, {'wedge': ['T', 'inwedge', 'xq'], 'ntail': ['T'], 'etail': ['cnt']})],
     'C10': [('TraceFloatLaw', 'TraceFloatLaw.cfg', 'tree_flaw.ndjson', {}, {'flaw': ['len', 'intervals']})],
